@@ -230,7 +230,7 @@ def show(e, full, minp=0):
         then = show(e[2], full, 0)
         if has_else and not full and ends_open(e[2]):
             then = "(" + then + ")"          # dangling else: an else-less `?` would take our `:`
-        s = show(e[1], full, 1) + " ? " + then
+        s = show(e[1], full, 2) + " ? " + then
         if has_else:
             s += " : " + show(e[3], full, 0)
     elif k == "bin":
@@ -240,7 +240,10 @@ def show(e, full, minp=0):
             op, p = BIN[e[1]]
             s = show(e[2], full, p) + " " + op + " " + show(e[3], full, p + 1)
     elif k == "slice":
-        s = show(e[3], full, 13) + "[" + show(e[1], full, 0) + ":" + show(e[2], full, 0) + "]"
+        left = show(e[1], full, 0)
+        if not full and ends_open(e[1]):
+            left = "(" + left + ")"          # an else-less `?` in the left bound would take the slice's `:`
+        s = show(e[3], full, 13) + "[" + left + ":" + show(e[2], full, 0) + "]"
     elif k == "short":
         s = show(e[2], full, 14) + "`" + show(e[1], full, 16)
     elif k == "un":
